@@ -9,6 +9,7 @@ in a closed flow no path ends because of a structural fault.
 -/
 import Rpft.Flow
 import Rpft.Lemmas.Compile
+import Rpft.CompileRender
 set_option linter.unusedSimpArgs false
 set_option linter.unusedVariables false
 namespace Rpft.Props.C01
@@ -112,6 +113,60 @@ categories of their own router (`mapCats` is the only way the model rewrites cat
 theorem case_categories_stable (r : Compile.SwitchR) (f : Compile.Cat → Compile.Cat)
     (hf : ∀ c, (f c).uid = c.uid) (h : Compile.CaseCatsOk r) : Compile.CaseCatsOk (r.mapCats f) :=
   Compile.caseCatsOk_mapCats r f hf h
+
+/-- **Closure by construction** (partial `compile_closed`): whatever the compiler machine did,
+every node it renders has its categories and exits in one-to-one positional correspondence
+(category k owns exit k), its default category — and with a timeout its no-response category —
+among its categories, and exactly one exit when it has no router.  These are the clauses of
+C01 that hold by the shape of the data; uniqueness of identifiers, destinations inside the
+flow and case → category are invariants of the machine's execution (not proved; decided per
+output by `closedB`). -/
+theorem rendered_node_shape (n : Compile.NodeM) :
+    let m := Compile.renderNode n
+    (∀ r, m.router = some r → r.cats.map (·.exitUuid) = m.exits.map (·.uuid)) ∧
+    (∀ r, m.router = some r → ∀ d ∈ r.defaultCats, d ∈ r.cats.map (·.uuid)) ∧
+    (∀ r, m.router = some r → ∀ t ∈ r.timeoutCats, t ∈ r.cats.map (·.uuid)) ∧
+    (m.router = none → m.exits.length = 1) := by
+  cases hn : n.router with
+  | none => simp [Compile.renderNode, hn]
+  | some rt =>
+    cases rt with
+    | rnd r =>
+      simp [Compile.renderNode, hn, Compile.renderRouter, Flow.Router.cats, Flow.Router.defaultCats,
+        Flow.Router.timeoutCats, Compile.renderCat, Compile.renderExit, List.map_map, Function.comp]
+    | sw r =>
+      refine ⟨?_, ?_, ?_, ?_⟩
+      · intro r' hr'
+        simp only [Compile.renderNode, hn, Option.map_some, Option.some.injEq] at hr'
+        subst hr'
+        simp [Compile.renderNode, hn, Compile.renderRouter, Flow.Router.cats, Compile.renderCat,
+          Compile.renderExit, List.map_map, Function.comp]
+      · intro r' hr' d hd
+        simp only [Compile.renderNode, hn, Option.map_some, Option.some.injEq] at hr'
+        subst hr'
+        simp only [Compile.renderRouter, Flow.Router.defaultCats, List.mem_singleton] at hd
+        subst hd
+        simp [Compile.renderRouter, Flow.Router.cats, Compile.SwitchR.allCats, Compile.renderCat,
+          List.map_map, Function.comp]
+      · intro r' hr' t ht
+        simp only [Compile.renderNode, hn, Option.map_some, Option.some.injEq] at hr'
+        subst hr'
+        simp only [Compile.renderRouter] at ht
+        cases hw : r.wait with
+        | none => simp [hw, Flow.Router.timeoutCats] at ht
+        | some w =>
+          cases w with
+          | zero => simp [hw, Flow.Router.timeoutCats] at ht
+          | succ k =>
+            cases hnr : r.noResp with
+            | none => simp [hw, hnr, Flow.Router.timeoutCats] at ht
+            | some nr =>
+              simp only [hw, hnr, Flow.Router.timeoutCats, List.mem_singleton] at ht
+              subst ht
+              simp [Compile.renderRouter, Flow.Router.cats, Compile.SwitchR.allCats, hnr,
+                Compile.renderCat, List.map_map, Function.comp]
+      · intro h
+        simp [Compile.renderNode, hn] at h
 
 /-! ### non-vacuity and negative witnesses -/
 
